@@ -47,6 +47,11 @@ f4f12c6 C11
 db6d889 C10
 a9edc22 C10
 40373e3 C01
+fad21fb C01
+41d442e C09
+8f26b42 C09
+1327c37 C20
+1102769 C12
 L
 fi
 mv $out.tmp $out
